@@ -255,6 +255,11 @@ func c31SameData(rp *c31Repo, be backend.Backend) bool {
 }
 
 func streamC31(h *H) {
+	// UpgradeRepo keeps a backup copy of the config in os.TempDir(); use a private directory so that
+	// cleaning up after failed runs cannot interfere with other shards running in parallel
+	private := MkTemp("c31-tmp-")
+	defer os.RemoveAll(private)
+	os.Setenv("TMPDIR", private)
 	nrepo := h.N(2, 12)
 	for ri := 0; ri < nrepo; ri++ {
 		rp := c31Build(h)
